@@ -4,10 +4,9 @@
 (* behaviour that reaches D steps is printed as one JSON line (start values, and for each    *)
 (* step the action, its argument and the state the model reaches) and then replayed into     *)
 (* the real IoUring by harness/ring.                                                         *)
-EXTENDS Ring, Json
+EXTENDS Ring_MC, Json
 CONSTANT D
 VARIABLE hist
-AllStarts == 0..(2*H-1)
 NearWrap == (H - NS - NC)..(H-1)
 
 Obs == [st |-> <<sqHead', sqTail', kSqHead', kSqTail', kCqHead', kCqTail'>>, sqs |-> sqSlot',
